@@ -9,6 +9,8 @@ same kind of event log and share the very same item and exception objects.
 
 import asyncio
 import collections.abc
+import decimal
+import fractions
 import functools
 import weakref
 
@@ -29,7 +31,9 @@ class Item:
 
     def __lt__(self, other):
         if type(other) is Item:
-            return self.key < other.key
+            # a rich comparison may answer with any truth value (C-style 0 / 1, numpy.bool_ ...): some items do
+            r = self.key < other.key
+            return r if (type(self.uid) is not int or self.uid % 3) else int(r)
         return NotImplemented
 
     # only ``<`` and ``==`` are defined - all that the stdlib's sorting, heap and min/max functions ever use
@@ -65,6 +69,19 @@ class Item:
 
     def __repr__(self):
         return "I%r#%r%s" % (self.key, self.uid, "" if self.truth else "f")
+
+
+class PairIterable:
+    """A (key, value) pair that can be iterated - so it unpacks - but not indexed"""
+
+    __slots__ = ("k", "v")
+
+    def __init__(self, k, v):
+        self.k = k
+        self.v = v
+
+    def __iter__(self):
+        return iter((self.k, self.v))
 
 
 class TolerantKey:
@@ -141,6 +158,10 @@ def ident(x):
         return ("awaitable_item", x.uid)
     if t is TolerantKey:
         return ("tol", x.v)
+    if t is decimal.Decimal or t is fractions.Fraction:
+        return (t.__name__, str(x))
+    if t is PairIterable:
+        return ("pair_iterable", ident(x.k), ident(x.v))
     if isinstance(x, ResultObject):
         return ("instance_of", ident(x.value))
     return ("o", t.__name__)
@@ -843,6 +864,10 @@ def _behave(kind, param, args, feed):
         return (uid if type(uid) is int else 0) % 3
     if kind == "tol":
         return TolerantKey(keyof(args[0]))
+    if kind == "mixnum":
+        # keys of mixed numeric kinds that order fine among each other (Decimal is not a numbers.Real)
+        k = keyof(args[0])
+        return (decimal.Decimal(k) + decimal.Decimal("0.5"), float(k), fractions.Fraction(2 * k + 1, 2), k)[(k + param) % 4]
     if kind == "divnone":
         return (keyof(args[0]) // (param + 2)) or None
     if kind == "neg":
